@@ -59,6 +59,8 @@ module Nat :
   val modulo : nat -> nat -> nat
  end
 
+val hd_error : 'a1 list -> 'a1 option
+
 val tl : 'a1 list -> 'a1 list
 
 val nth : nat -> 'a1 list -> 'a1 -> 'a1
@@ -1162,6 +1164,16 @@ val find_best_ping :
 
 val update_best : strategy -> conn list -> nat option -> nat option
 
+val insert_id : nat -> nat list -> nat list
+
+val sort_ids : nat list -> nat list
+
+val add_connection : nat list -> nat -> nat list
+
+val add_all : nat list -> nat list
+
+val best_after_add : nat list -> nat option
+
 type msg = nat * n
 
 type agent =
@@ -1409,6 +1421,12 @@ val heads_of : sx list -> (nat * n) list
 val run_wait2 : sx -> sx
 
 val run_wait : sx -> sx
+
+val ids_of : sx list -> nat list
+
+val index_in : nat -> nat list -> nat -> nat option
+
+val run_add : sx -> sx
 
 val run_repro : sx -> sx
 
